@@ -55,8 +55,9 @@ def recipe(c: Check):
     need(c, "release", ["NB_OK", "NB_QUOTA", "NB_EXISTS", "NB_ACQERR", "NB_LISTENFAIL", "NB_CONFLICT_ROLLBACK",
                         "NB_CONFLICT_FIRST", "NB_GROUP_REFUSED", "NB_ADDRACE", "NB_CLOSE",
                         "NB_END_WITH_PROXIES", "NB_GROUP_JOIN", "NB_GROUP_LAST_LEAVE", "NB_END_WITH_POOL"])
-    c.run_driver("udprace", q(c.tier, 4, 20), coq=False, timeout=600)
+    c.run_driver("udprace", q(c.tier, 2, 20), coq=False, timeout=600)
     c.run_driver("quicend", q(c.tier, 1, 3), coq=False, timeout=300)
+    c.run_driver("sshgw", q(c.tier, 1, 3), coq=False, timeout=300)
     st = c.run_driver("cycles", 30, shards=1, timeout=600)
     if st:
         c.cov["runtime_observations"] = dict(
